@@ -59,7 +59,8 @@ HandleFrameF(s, o, n, fin) ==
 HandleResetF(s, fs) ==
   IF s.final # NONE /\ fs # s.final
   THEN [st |-> s, out |-> [k |-> "FinalSizeError"]]
-  ELSE [st |-> [s EXCEPT !.final = fs, !.finished = TRUE, !.resetAcc = TRUE],
+  ELSE [st |-> [s EXCEPT !.final = fs, !.finished = TRUE, !.resetAcc = TRUE,
+                         !.highest = Max(s.highest, fs)],      \* the reset consumes the credit up to the final size
         out |-> [k |-> "Reset"]]
 
 (* STOP_SENDING bookkeeping.  The environment (the connection) asks for a
